@@ -98,6 +98,8 @@ func runOp(fs filesystem.FS, op, tdir, link, pattern string) string {
 		case "GarbageCollect":
 			time.Sleep(2 * time.Millisecond)
 			ch <- fs.GarbageCollectWithContext(ctx, tdir, time.Nanosecond)
+		case "GarbageCollectAged":
+			ch <- fs.GarbageCollectWithContext(ctx, tdir, time.Hour)
 		case "RmExcluding":
 			ch <- fs.RemoveWithContextAndExclusionPatterns(ctx, tdir, pattern)
 		case "CleanDirExcluding":
@@ -151,6 +153,16 @@ func replayOne(sc *scenario, backend, scratch string) (event, error) {
 		}
 	}
 	before := sandbox.Take(base, root)
+	if sc.Op == "GarbageCollectAged" {
+		// after the snapshot (reading refreshes access times): every file and directory of the sandbox was last used two hours
+		// ago; the link keeps its own, fresh, times
+		old := time.Now().Add(-2 * time.Hour)
+		for rel, e := range before {
+			if e.Kind != "link" {
+				_ = base.Chtimes(filepath.Join(root, filepath.FromSlash(rel)), old, old)
+			}
+		}
+	}
 	gate := fsgate.NewGate(nil, "")
 	fs := vfsOver(base, backend, gate)
 	pattern := ""
@@ -194,7 +206,8 @@ func replay(a *hk.Args) error {
 			return err
 		}
 		w.Write(ev)
-		if sc.Target == "none" { // the in-memory backend has no symbolic links: link-free subset
+		// the in-memory backend has no symbolic links (link-free subset) and no access times (nothing ever ages there)
+		if sc.Target == "none" && sc.Op != "GarbageCollectAged" {
 			ev, err = replayOne(sc, "mem", a.Dir)
 			if err != nil {
 				return err
